@@ -8,6 +8,7 @@
 //!   panic_vmap     <search> <replace>          generate_variant_map: `no-empty-key` | `empty-key`
 //!   panic_upper    <utf8>                      case_constraints::can_match_style (reaches has_consecutive_uppercase)
 //!   panic_find     <content> <variant>...      build_pattern + find_matches
+//!   panic_compound <identifier> <old> <new>   compound_matcher::find_compound_variants, all styles
 //! Result: `panic` | `nopanic` (panic_vmap: `panic` | `no-empty-key` | `empty-key`).
 use crate::util::*;
 use std::panic::{catch_unwind, AssertUnwindSafe};
@@ -96,6 +97,13 @@ pub fn dispatch(f: &[&str]) -> Option<String> {
             Some(verdict(catch_unwind(AssertUnwindSafe(|| {
                 renamify_core::build_pattern(&vars).map(|p| renamify_core::find_matches(&p, &c, "f").len())
             }))))
+        },
+        Some("panic_compound") => {
+            if f.len() != 4 { return Some("bad-req".into()); }
+            let (Some(i), Some(o), Some(n)) = (unhex_str(f[1]), unhex_str(f[2]), unhex_str(f[3])) else { return Some("bad-req".into()) };
+            Some(verdict(catch_unwind(|| {
+                renamify_core::compound_matcher::find_compound_variants(&i, &o, &n, &renamify_core::case_model::Style::all_styles()).len()
+            })))
         },
         _ => None,
     }
